@@ -6,6 +6,7 @@ import Lean.Data.Json
 import OdeVerif.Generated.DrawDecision
 import OdeVerif.Generated.Constants
 import OdeVerif.Model.Stiffness
+import OdeVerif.Model.Spikes
 
 open Lean
 
@@ -87,6 +88,78 @@ def opConstants (_ : Json) : Except String Json := do
     ("max_order", Json.num Generated.fromFunctionMaxOrder),
     ("draw_defaults", Json.arr (Generated.drawDecisionDefaults.map (fun (k, v) => Json.arr #[Json.str k, Json.num v])).toArray)])
 
+/-! ### C15 spikes -/
+
+/-- rationals travel as "p/q" (or "p") -/
+def ratOfString (s : String) : Except String Rat :=
+  match s.splitOn "/" with
+  | [p] => match p.toInt? with
+    | some n => .ok (n : Rat)
+    | none => .error ("bad rat: " ++ s)
+  | [p, q] => match p.toInt?, q.toNat? with
+    | some n, some d => if d = 0 then .error "zero denominator" else .ok (mkRat n d)
+    | _, _ => .error ("bad rat: " ++ s)
+  | _ => .error ("bad rat: " ++ s)
+
+def stringOfRat (r : Rat) : String :=
+  if r.den = 1 then toString r.num else toString r.num ++ "/" ++ toString r.den
+
+def getRat (j : Json) (k : String) : Except String Rat := do ratOfString (← getStr j k)
+def getRats (j : Json) (k : String) : Except String (List Rat) := do
+  let a ← getArr j k
+  a.toList.mapM (fun x => do ratOfString (← x.getStr?))
+def jRats (l : List Rat) : Json := Json.arr (l.map (fun r => Json.str (stringOfRat r))).toArray
+
+def jOptF (o : Option (List Float)) : Json := match o with
+  | none => Json.mkObj [("out_of_fuel", Json.bool true)]
+  | some l => Json.mkObj [("spikes", jFloats l)]
+def jOptR (o : Option (List Rat)) : Json := match o with
+  | none => Json.mkObj [("out_of_fuel", Json.bool true)]
+  | some l => Json.mkObj [("spikes", jRats l)]
+
+def opRegular (j : Json) : Except String Json := do
+  let fuel ← getNat j "fuel"
+  if (← getStr j "num") == "rat" then
+    pure (jOptR (Spikes.regular (← getRat j "T") (← getRat j "rate") fuel))
+  else
+    pure (jOptF (Spikes.regular (← getFloat j "T") (← getFloat j "rate") fuel))
+
+def opPoisson (j : Json) : Except String Json := do
+  if (← getStr j "num") == "rat" then
+    let T ← getRat j "T"; let m ← getRat j "min_isi"; let isis ← getRats j "isis"
+    match Spikes.poisson T m isis with
+    | none => pure (Json.mkObj [("out_of_draws", Json.bool true)])
+    | some l => pure (Json.mkObj [("spikes", jRats l), ("consumed", Json.num (Spikes.poissonConsumed T m isis 0 0))])
+  else
+    let T ← getFloat j "T"; let m ← getFloat j "min_isi"; let isis ← getFloats j "isis"
+    match Spikes.poisson T m isis with
+    | none => pure (Json.mkObj [("out_of_draws", Json.bool true)])
+    | some l => pure (Json.mkObj [("spikes", jFloats l), ("consumed", Json.num (Spikes.poissonConsumed T m isis 0 0))])
+
+def opListStim (j : Json) : Except String Json := do
+  if (← getStr j "num") == "rat" then
+    pure (Json.mkObj [("spikes", jRats (Spikes.listStim (← getRat j "T") (← getRats j "xs")))])
+  else
+    pure (Json.mkObj [("spikes", jFloats (Spikes.listStim (← getFloat j "T") (← getFloats j "xs")))])
+
+/-- stims: [{"vars":[names as written], "trains": {name: [float bits]}}]; the per-target trains are
+what the type-specific generator produced for that target (recorded from the real run or
+produced by the model ops above) -/
+def opFromJson (j : Json) : Except String Json := do
+  let marker := (← getStr j "marker").toList
+  let stims ← getArr j "stims"
+  let parsed ← stims.toList.mapM (fun s => do
+    let vars := (← getArr s "vars").toList
+    let vars ← vars.mapM (fun v => do pure (← v.getStr?).toList)
+    let trains ← s.getObjVal? "trains"
+    let gen : List Char → List String := fun v =>
+      match (trains.getObjValAs? (Array String) (String.ofList v)) with
+      | .ok a => a.toList
+      | .error _ => ["missing-train"]
+    pure (vars, gen))
+  let res := Spikes.fromJson marker parsed
+  pure (Json.mkObj (res.map (fun (k, v) => (String.ofList k, Json.arr (v.map Json.str).toArray))))
+
 def dispatch (op : String) (j : Json) : Json :=
   match op with
   | "ping" => Json.mkObj [("pong", j)]
@@ -94,6 +167,10 @@ def dispatch (op : String) (j : Json) : Json :=
   | "stiff-proto" => run (opStiffProto j)
   | "solver-name" => run (opSolverName j)
   | "constants" => run (opConstants j)
+  | "regular" => run (opRegular j)
+  | "poisson" => run (opPoisson j)
+  | "list-stim" => run (opListStim j)
+  | "from-json" => run (opFromJson j)
   | _ => jerr ("unknown-op: " ++ op)
 
 end OdeVerif.Driver
